@@ -215,7 +215,20 @@ impl Check for C13 {
         let mut explicit_now = true;
         for _ in 0..n_cmds {
             let target = rng.pick(&coms).clone();
-            let cmd = match rng.below(10) {
+            let cmd = match rng.below(12) {
+                10 => {
+                    // an open-ended range: nothing in it depends on today's date
+                    let d = format!("2024-{:02}-{:02}", 1 + rng.below(3), 1 + rng.below(28));
+                    if rng.chance(1, 2) {
+                        sv(&["balance", "--start", &d, &root])
+                    } else {
+                        sv(&["balance", "--end", &d, &root])
+                    }
+                }
+                11 => {
+                    let d = format!("2024-01-{:02}", 1 + rng.below(28));
+                    sv(&["balance", "--start", &d, "--end", "2024-03-15", &root])
+                }
                 0 => sv(&["format", &root]),
                 1 => sv(&["accounts", &root]),
                 2 | 3 => sv(&["balance", &root]),
@@ -250,7 +263,11 @@ impl Check for C13 {
         // clap caches the default of `--now` per OS process (see exec::pin_clock_default), so
         // the simulated date is the pinned base date for every process.
         let _ = explicit_now;
-        let today: Vec<Date> = vec![Date::new(2024, 6, 15); n_procs];
+        // The calendar date of each simulated process does vary, though: with the default of
+        // `--now` pinned, no command has a reason to print anything that depends on it.
+        let days = [Date::new(2024, 6, 15), Date::new(2023, 1, 1), Date::new(2024, 1, 20), Date::new(2030, 1, 1), Date::new(1999, 12, 31), Date::new(2024, 2, 29)];
+        let vary = rng.chance(1, 2);
+        let today: Vec<Date> = (0..n_procs).map(|i| if vary && i > 0 { days[rng.usize(days.len())] } else { days[0] }).collect();
         Sc {
             world,
             today,
